@@ -27,7 +27,7 @@ RULE = ('cases: seeded grid searches over grids of 1-12 combinations (1-3 parame
         'table).')
 ASSUMPTIONS = ['grids carry no repeated values (the table key must identify the combination; duplicates are C14\'s subject)',
                'workers are forked (Linux default), so the score table set before the call is visible to them']
-FLOORS = {'quick': {'searches_whose_score_function_runs_a_failing_search': 48, 'searches_after_a_build_that_failed_in_a_collection': 26, 'grids_with_non_list_collections': 67, 'searches': 300, 'parallel_searches': 150, 'results_checked': 1500, 'mode_0': 15, 'mode_1': 15, 'mode_2': 15, 'mode_3': 15,
+FLOORS = {'quick': {'all_tied_tables_beyond_maxsize': 2, 'tables_on_which_every_combination_ties': 12, 'searches_whose_score_function_runs_a_failing_search': 48, 'searches_after_a_build_that_failed_in_a_collection': 26, 'grids_with_non_list_collections': 67, 'searches': 300, 'parallel_searches': 150, 'results_checked': 1500, 'mode_0': 15, 'mode_1': 15, 'mode_2': 15, 'mode_3': 15,
                     'mode_4': 15, 'mode_5': 15, 'mode_6': 15, 'mode_7': 15, 'tied_optimum': 40, 'optimum_last': 30, 'optimum_first': 30,
                     'optimum_middle': 20, 'beyond_maxsize_tables': 40, 'seeded_grids': 40, 'big_equal_valued_neighbours': 2, 'big_long_variance': 2, 'big_grids': 2, 'parameter_list_reused': 79, 'style_bigint': 15, 'style_nearmax': 8, 'limit_below_completion': 30,
                     'reach:Batching.grid_search': 300},
@@ -78,6 +78,8 @@ def gen_table(rng, n, reps, style, mode):
     if n >= 3 and rng.random() < 0.35:          # a second combination attaining the optimum (same row values)
         other = rng.choice([j for j in range(n) if j != tgt])
         rows[other] = list(rows[tgt])
+    if n >= 2 and rng.random() < 0.12:          # every combination attains the optimum (a flat response surface): the first one is the best
+        rows = [list(rows[tgt]) for _ in range(n)]
     return rows
 
 
@@ -131,6 +133,10 @@ def case_search(ctx, case):
         ctx.count('limit_below_completion')
     is_min = mode % 2 == 0
     exact = [exact_aggregate(r, mode) for r in rows]
+    if n >= 2 and len(set(exact)) == 1:
+        ctx.count('tables_on_which_every_combination_ties')
+        if abs(exact[0]) > sys.maxsize:
+            ctx.count('all_tied_tables_beyond_maxsize')
     outcomes = []
     procs_list = [1, rng.choice([2, 4, 8, 16])]
     shared_pl = None
@@ -183,11 +189,27 @@ def case_search(ctx, case):
             if list(res['records']) != list(row):
                 raise CaseViolation(f'result #{j}: individual scores {res["records"]} differ from the score function\'s values {row}', **detail)
             sc = res['score']
+            if isinstance(sc, float) and (sc != sc or sc in (float('inf'), float('-inf'))):
+                # a non-finite aggregate is right only where the exact one lies beyond the range of a double as well
+                try:
+                    float(ex)
+                except OverflowError:
+                    ctx.count('aggregates_beyond_the_range_of_a_double')
+                    continue
+                raise CaseViolation(f'result #{j}: aggregate {sc!r} is not finite although the {batching.ScoreMode(mode).name} aggregate of {row} is '
+                                    f'{float(ex)!r}', **detail)
             ok = Fraction(sc) == ex or (sc == float(ex) and not (style in ('int', 'bigint') and ex.denominator == 1))
             # (integer scores with an integral aggregate must be reported exactly, not rounded to a double)
             if not ok and style in ('wild', 'huge', 'hugeneg', 'hugepos') and mode in (4, 5, 6, 7, 2, 3):
                 scale = max(abs(float(ex)), max(abs(x) for x in row) ** (2 if mode >= 6 else 1) * 1e-3, 1e-300)
                 ok = abs(float(Fraction(sc) - ex)) <= 1e-9 * scale
+            if not ok and (style not in ('int', 'bigint') or ex.denominator != 1) and mode in (4, 5, 6, 7, 2, 3):
+                # float scores: the mean / sum / sample variance computed in floating point by ANY sound algorithm (two-pass, Welford, exact
+                # fractions rounded once) - they differ in the last units, far below 1e-12 of the magnitudes involved
+                scale = max(abs(float(ex)), max(abs(float(x)) for x in row) ** (2 if mode >= 6 else 1))
+                ok = abs(float(Fraction(sc) - ex)) <= 1e-12 * scale
+                if ok:
+                    ctx.count('aggregates_equal_up_to_float_rounding')
             if not ok:
                 raise CaseViolation(f'result #{j}: aggregate {sc!r} is not the {batching.ScoreMode(mode).name} aggregate {float(ex)!r} of {row}', **detail)
         scores = [r['score'] for r in results]
